@@ -11,6 +11,35 @@ with open(_os.path.join(_os.path.dirname(_os.path.abspath(__file__)), "theorems_
     _T = _json.load(_fh)
 
 REGISTRY = {
+    "C17": {
+        "level": "translation_validation",
+        "modules": ["CoCoVerif.Props.C17"],
+        "theorems": _T["C17"],
+        "rule": "programs = random accepted and rejected programs P, each assembled (a) alone, (b) after a random history Q1..Qk of accepted and rejected "
+                "programs in the same interpreter, (c) again; the three results (image, listing columns, symbol table in order) must be equal and "
+                "equal to the history-free Lean model; the source list is compared before/after; a sample of P is also assembled in fresh processes "
+                "under different PYTHONHASHSEED values and compared with the warm result",
+        "assumptions": ["what is validated is the absence of carried state on the histories tried; Python object aliasing cannot be expressed in a theorem about a pure model"],
+    },
+    "C18": {
+        "level": "proof",
+        "modules": ["CoCoVerif.Props.C18"],
+        "theorems": _T["C18"],
+        "rule": "cases = generated programs (ORG first, origin >= $100, label references label / label+-n, branches, PCR, data) each assembled in five "
+                "variants: base, origin shifted by D, labels renamed by a bijection, reformatted (white space, comments, mnemonic case), extended by a "
+                "suffix; the implementation's outputs are compared with each other (metamorphic oracle: bytes equal except absolute own-label references "
+                "which move by exactly D; renamed symbols; unchanged prefix) and each variant with the model",
+        "assumptions": ["R1 (relocation) and R2 (renaming) are validated by the metamorphic oracle and the correspondence only; R3 and R4 are theorems"],
+    },
+    "C19": {
+        "level": "proof",
+        "modules": ["CoCoVerif.Props.C19"],
+        "theorems": _T["C19"],
+        "rule": "cases = random programs split at statement boundaries into an including file and 1..3 included files nested to depth 3 (written to a temp "
+                "working directory for the implementation), compared with the textually spliced program (implementation vs implementation, and each vs the "
+                "model); missing file and inclusion cycles",
+        "assumptions": ["include paths are relative to the working directory; the model's file system is a finite map name -> lines"],
+    },
     "C09": {
         "level": "proof",
         "modules": ["CoCoVerif.Props.C09"],
@@ -150,6 +179,34 @@ NOT_BUILT = "check not built yet at this commit (work in progress; see DESIGN.md
 NOT_APPLICABLE = {("C%02d" % i): NOT_BUILT for i in range(1, 20)}
 
 MANIFEST_TEXT = {
+    "C17": {
+        "text": "Translation validation of a stateless model: the Lean model assemble is a pure function (C17_history_free, C17_repeatable are immediate), so the "
+                "content of this property is whether the PYTHON code carries state between assemblies; that is decided by running the implementation on "
+                "random histories (accepted and rejected programs interleaved) in one interpreter, in fresh processes and under different hash seeds, and "
+                "comparing each result with the implementation's own first result and with the history-free model, plus the source list before/after.",
+        "design_ref": "DESIGN.md section 5 C17",
+        "note": "not a proof about the Python: aliasing/mutation of module-level objects cannot be stated in Lean about a pure model; level translation_validation",
+        "technique": "translation validation: history-free Lean model vs warm-process / fresh-process runs of the implementation (differential, metamorphic)",
+    },
+    "C18": {
+        "text": "Lean: C18_R3 (white space between fields, comments and mnemonic case do not change what a line parses to: scanLine_render is the canonical-form "
+                "lemma of the line scanner with the exact side condition under which a comment is not swallowed by the operand field), C18_R4 (appending "
+                "statements keeps the statements, symbol table and image of the shorter program as prefixes — proved through every stage incl. the PCR size "
+                "loop by a stuttering simulation). R1 (relocation) and R2 (renaming) are stated (C18_R1_Statement, C18_R2_Statement) and decided by the "
+                "metamorphic oracle on the implementation plus the correspondence.",
+        "design_ref": "DESIGN.md section 5 C18",
+        "note": "known finding S1 (symbol names with '_' or '@'); R1/R2 not proved (parametricity argument)",
+        "technique": "Lean 4 proof (scanner canonical form; prefix stability through all passes) + metamorphic oracle on the implementation + differential correspondence",
+    },
+    "C19": {
+        "text": "Lean: include_textual (for every file system, prefix, suffix and include line: assembling with INCLUDE f equals assembling with the lines of f "
+                "spliced in, whenever the including side does not end in an internal error), include_textual_star (any nesting, by induction), "
+                "include_missing_internal / include_cycle_internal and C19_finding_* (missing file and cycles are NOT diagnostics: finding I2; the "
+                "unconditional equality is false because of detection order), C19_partial.",
+        "design_ref": "DESIGN.md section 5 C19",
+        "note": "known finding I2; the hypothesis 'not internal' is exactly the I2 region",
+        "technique": "Lean 4 proof (expansion distributes over concatenation, fuel monotonicity) + differential correspondence + implementation-vs-implementation splice oracle",
+    },
     "C09": {
         "text": "Lean: sniff_written_disk (every image the tool writes as a disk is recognised as a disk, whatever its content), sniff_written_cassette (a written "
                 "cassette shorter than 161,280 bytes is recognised as a cassette), hist_cassette / hist_disk (for EVERY history of add-batches with save and "
